@@ -448,6 +448,19 @@ class Gen:
     def char_rule(self, nm, i):
         parts = []
         later = [m for m in self.names[i + 1:] if self.kinds[m] == "char"]
+        if self.coin(0.12 if self.p["p_unicode"] < 0.5 else 0.25):
+            # a class whose every part starts in ASCII while one range ends far beyond it (JSON-style "any char from ']' up")
+            wide = [rg for rg in UNI_RANGES if ord(rg[0]) < 0x80 <= ord(rg[1])]
+            a, b = self.r.choice(wide)
+            parts = [("rng", a, b)]
+            for _ in range(self.r.randint(0, 2)):
+                if self.coin(0.5):
+                    parts.append(("lit", self.r.choice(ASCII_LITS)[0]))
+                else:
+                    ra = self.r.choice(ASCII_RANGES)
+                    parts.append(("rng", ra[0], ra[1]))
+            self.r.shuffle(parts)
+            return CharRule(nm, parts, [], [])
         if later and self.coin(0.3):
             # a class that is (almost) only another class: NameChar = Letter | '_'   (the inner class may carry checks)
             parts = [("ref", self.r.choice(later))]
